@@ -118,6 +118,30 @@ def default_order(spec):
     return sorted(names, key=lambda n: RANK[spec["objs"][n]["cls"]])  # stable: insertion order within a rank
 
 
+import weakref  # noqa: E402
+
+# harness-side registry: which spec key an object was built from. Display names may collide (two jobs called "upload"),
+# spec keys never do. Keyed by identity (modeling objects compare and hash by their id *string*, which two objects of
+# different builds can share).
+_KEYS = {}
+
+
+def register_key(obj, key):
+    oid = id(obj)
+
+    def _gone(_ref, oid=oid):
+        _KEYS.pop(oid, None)
+    _KEYS[oid] = (weakref.ref(obj, _gone), key)
+
+
+def key_of(x):
+    x = getattr(x, "_value", x)
+    entry = _KEYS.get(id(x))
+    if entry is not None and entry[0]() is x:
+        return entry[1]
+    return x.name
+
+
 def kwargs_for(entry, objs):
     """Constructor keyword arguments (without name) for a spec entry."""
     cls_name = entry["cls"]
@@ -152,11 +176,14 @@ def construct_with(name, cls_name, kw):
 
 
 def construct(name, entry, objs):
-    """Create one object through its public constructor (``from_defaults`` for omitted parameters)."""
+    """Create one object through its public constructor (``from_defaults`` for omitted parameters). ``name`` is the
+    spec key; the object's display name is entry['name'] when given (display names may collide)."""
     kw = kwargs_for(entry, objs)
     if entry["cls"] == "Country":
         kw["short_name"] = entry.get("short_name", name.upper())
-    return construct_with(name, entry["cls"], kw)
+    obj = construct_with(entry.get("name", name), entry["cls"], kw)
+    register_key(obj, name)
+    return obj
 
 
 def build(spec, id_seed=None, with_system=True):
@@ -195,9 +222,10 @@ def reachable(objs):
     out = {"system": system}
     for o in system.all_linked_objects:
         o = getattr(o, "_value", o)
-        if o.name in out and out[o.name] is not o:
-            raise AssertionError(f"two distinct reachable objects named {o.name}")
-        out[o.name] = o
+        k = key_of(o)
+        if k in out and out[k] is not o:
+            raise AssertionError(f"two distinct reachable objects with key {k}")
+        out[k] = o
     return out
 
 
